@@ -36,7 +36,7 @@ void check_C17(Src &s, Ctx &ctx) {
     std::string wd = cfg().workdir, casef = wd + "/c17.case", ck = wd + "/c17ckpt", log = wd + "/c17.log", fin = wd + "/c17.final";
     { std::ofstream f(casef, std::ios::binary); f.write((const char *)s.p + s.i, (std::streamsize)(s.n - s.i)); }
     // the same decoding as the driver (engine/c17/c17config.hpp)
-    bool big = cfg().tier == 1 && s.n > 1 && ((unsigned)s.p[s.n - 1] + 256u * (unsigned)s.p[s.n - 2]) % 300u == 5u;   // thorough tier: about one case in three hundred grows beyond 1000 loaded points
+    bool big = s.n > 1 && ((unsigned)s.p[s.n - 1] + 256u * (unsigned)s.p[s.n - 2]) % 300u == 5u;   // thorough tier: about one case in three hundred grows beyond 1000 loaded points
     if (big) setenv("VERIF_C17_BIG", "1", 1); else unsetenv("VERIF_C17_BIG");
     GridState st; C17Config cf = c17_decode(s, st, big); size_t budget = cf.budget; bool parallel = cf.parallel;
     if (big) ctx.label("big-construction");
